@@ -13,37 +13,38 @@ Require Import PV.Total.Emit PV.Total.Dispatch PV.Total.Ops PV.Total.Column PV.G
 Require Import PV.Proofs.TotalEmit PV.Proofs.TotalOps PV.Proofs.TotalGen PV.Proofs.TotalColumn.
 Open Scope list_scope.
 
-(* 1. show_error: a line number inside the file is rendered without raising, every
-      context line is inside the file, the reported line is among them, at most 7
-      context lines, and the caret follows the reported line when a column is known *)
-Theorem C12_emit_wellformed : forall (A : Type) (lines : list A) lineno col,
+(* 1. show_error, for the constants TRANSLATED from the current node_visitor.py
+      (Gen.Total.show_error_params: CONTEXT_LINES, the extra line after, offset and guard of the
+      previous-line lookup): a line number inside the file is rendered without raising, every
+      context line is inside the file, the reported line is among them, at most
+      2*CONTEXT_LINES + extra context lines, and the caret follows the reported line when a
+      column is known.  Proved for EVERY parameter record satisfying params_ok, so a
+      behaviour-preserving change of the constants re-proves. *)
+Theorem C12_emit_wellformed : forall (A : Type) (P : emit_params) (lines : list A) lineno col,
+  params_ok P = true ->
   (1 <= lineno <= Z.of_nat (length lines))%Z ->
-  exists ctx, emit lines (Some lineno) col = Emitted (Some lineno) col ctx /\
+  exists ctx, emit_p P lines (Some lineno) col = Emitted (Some lineno) col ctx /\
     wellformed_position lines (Emitted (Some lineno) col ctx) /\
-    (Z.of_nat (length ctx) <= 2 * CONTEXT_LINES + 1)%Z /\
+    (Z.of_nat (length ctx) <= 2 * ep_context P + ep_after_extra P)%Z /\
     (forall c, col = Some c -> In (lineno, true) ctx).
 Proof. exact emit_wellformed. Qed.
 Print Assumptions C12_emit_wellformed.
 
+Theorem C12_show_error_params_ok : params_ok show_error_params = true.
+Proof. exact show_error_params_ok. Qed.
+Print Assumptions C12_show_error_params_ok.
+
 (* 2. exactly when it raises: the line number is not a valid subscript for
-      lines[lineno-1] (lines[lineno-2] is only evaluated for lineno >= 2, where it is
-      then valid as well) *)
-Theorem C12_emit_crash_iff : forall (A : Type) (lines : list A) lineno col,
-  emit lines (Some lineno) col = Crash <->
-  ~ (1 - Z.of_nat (length lines) <= lineno <= Z.of_nat (length lines))%Z.
+      lines[lineno-1] (the previous line is only read where its subscript is non-negative) *)
+Theorem C12_emit_crash_iff : forall (A : Type) (P : emit_params) (lines : list A) lineno col,
+  params_ok P = true ->
+  (emit_p P lines (Some lineno) col = Crash <->
+   ~ (1 - Z.of_nat (length lines) <= lineno <= Z.of_nat (length lines))%Z).
 Proof. exact emit_crash_iff. Qed.
 Print Assumptions C12_emit_crash_iff.
 
-(* the subscripts of `lines` in the CURRENT show_error, their guards, the bounds of the
-   context loop and CONTEXT_LINES are the ones the model was written for *)
-Theorem C12_show_error_shape_pinned :
-  show_error_subscripts = pinned_subscripts /\ show_error_context_bounds = pinned_context_bounds /\
-  Z.of_nat show_error_context_lines = CONTEXT_LINES.
-Proof. exact show_error_shape_pinned. Qed.
-Print Assumptions C12_show_error_shape_pinned.
-
-Theorem C12_emit_without_position_total : forall (A : Type) (lines : list A) col,
-  emit lines None col = Emitted None col [].
+Theorem C12_emit_without_position_total : forall (A : Type) (P : emit_params) (lines : list A) col,
+  emit_p P lines None col = Emitted None col [].
 Proof. exact emit_without_position_total. Qed.
 Print Assumptions C12_emit_without_position_total.
 
@@ -139,6 +140,19 @@ Print Assumptions C12_enum_chains_guard_exact.
 Theorem C12_bound_chain_total : forall c, In c bound_family -> crashes [] bound_chain_handled c = false.
 Proof. exact bound_chain_total. Qed.
 Print Assumptions C12_bound_chain_total.
+
+(* 6c. NameCheckVisitor._get_typeis_parameter, translated statement by statement into
+       Gen.Total.typeis_index (cm / im = is_classmethod / is_instancemethod, n = len(info.params)):
+       the subscript info.params[index] is in range whenever it is reached, and the function
+       returns exactly the parameter after self/cls when there is one *)
+Theorem C12_typeis_index_in_range : forall cm im n i, typeis_index cm im n = Some i -> (i < n)%nat.
+Proof. exact typeis_index_in_range. Qed.
+Print Assumptions C12_typeis_index_in_range.
+
+Theorem C12_typeis_index_spec : forall cm im n,
+  typeis_index cm im n = (let k := if cm || im then 1 else 0 in if (k <? n)%nat then Some k else None)%nat.
+Proof. exact typeis_index_spec. Qed.
+Print Assumptions C12_typeis_index_spec.
 
 (* 7. constraints: however And/Or constraints are built (make, invert), apply never
       meets `left, *rest = []` *)
